@@ -254,6 +254,9 @@ class SElem(Cell):
         a.reads.add(self.idx)
         if self.idx in a.sym:
             return a.sym[self.idx]
+        if isinstance(self.idx, int) and a.length is not None and not (0 <= self.idx < a.length):
+            # the access is already recorded as out of range; what the program would read there is arbitrary memory
+            return dag.atom("out_of_range(%s[%s])" % (a.name, self.idx))
         if a.gen is not None:
             v = a.gen(self.idx)
             return v
